@@ -150,6 +150,11 @@ func (r *Run) Fatal(format string, args ...any) {
 	r.fatal = append(r.fatal, fmt.Sprintf(format, args...))
 }
 
+// Tick records the elapsed time at a phase boundary (reported in the evidence).
+func (r *Run) Tick(label string) {
+	r.Analysed["t_ms_"+label] = int(time.Since(r.Start).Milliseconds())
+}
+
 func (r *Run) Note(format string, args ...any) { r.Notes = append(r.Notes, fmt.Sprintf(format, args...)) }
 func (r *Run) Assumef(format string, args ...any) {
 	r.Assume = append(r.Assume, fmt.Sprintf(format, args...))
